@@ -674,7 +674,8 @@ def run(ctx):
     q = False
     seed = ctx.seed
     dims = [2, 3, 4] if q else [2, 3, 4, 5]
-    mgen = 4 if q else 14
+    deep = not ctx.quick           # thorough tier: denser lattice, histories one op deeper
+    mgen = 4 if q else (22 if deep else 14)
     ctx.rule = ("lattice points CORNER(n)+GENERIC(n) (Klein radius <= 0.9), every point / ordered pair / triple, every "
                 "representative lambda in {1,-1,2.5,-0.3}, t in %r, force_oriented in {default, True, False}; regular polygons "
                 "for every n_sides in 3..12 x 5 admissible angles / 3 radii.  Non-trivial: every case except the origin in "
@@ -765,7 +766,7 @@ def run(ctx):
                          "dimension": [2, 3] if q else [2, 3, 4, 5],
                          "integer-valued radius 1, 2 / angle 1": "packaged as %r, dimensions 2, 3 (radius 2 also in 4, 5)" % (INT_PACKS + FLOAT_PACKS[1:],)})
 
-    hdepth = 3
+    hdepth = 4 if deep else 3
     roots = history_roots(lat, dims, 3 if q else 8)
     ctx.bfs("histories", "checks.c13:case_history", roots, depth=hdepth, chunk=32,
             domains={"dimensions": dims, "root configurations per dimension": 3 if q else 8, "depth": hdepth,
